@@ -22,7 +22,7 @@ TOGGLES = [
     "alias_scalars", "component_parameters", "component_bodies", "component_responses", "path_item_parameters",
     "same_name_two_locations", "multi_body", "multipart", "form", "octet", "text_responses", "plus_json",
     "no_content", "security", "tags", "defaults", "descriptions", "query_arrays", "header_params",
-    "cookie_params", "shared_paths", "inline_response_objects", "shuffle_decl", "media_type_params", "item_level_name_clash", "multi_media_responses", "wrapped_refs", "rich_form_fields", "reserved_param_names", "python_name_clash", "noise_responses", "trailing_slash_paths", "prefix_names", "inline_in_aliases", "inline_allof", "shared_body_models", "decorations",
+    "cookie_params", "shared_paths", "inline_response_objects", "shuffle_decl", "media_type_params", "item_level_name_clash", "multi_media_responses", "wrapped_refs", "rich_form_fields", "reserved_param_names", "python_name_clash", "noise_responses", "trailing_slash_paths", "prefix_names", "inline_in_aliases", "inline_allof", "shared_body_models", "decorations", "shared_components", "no_operation_id", "long_paths",
 ]
 
 PROP_VOCAB = [
@@ -689,6 +689,8 @@ class DocGen:
                 segs.append("{" + pn + "}")
             if r.random() < 0.3:
                 segs.append(self.token())
+            if self.on("long_paths") and r.random() < 0.15:
+                segs = segs + [self.token() + "Resource" + self.token() for _ in range(r.randint(6, 12))]  # deeply nested: a long derived name
             path = "/" + "/".join(segs)
             if self.on("trailing_slash_paths") and r.random() < 0.25:
                 path += "/"  # a trailing slash is part of the path the document declares
@@ -700,6 +702,8 @@ class DocGen:
             for method in methods:
                 opid = "op_" + self.token()
                 op: dict = {"operationId": opid}
+                if self.on("no_operation_id") and r.random() < 0.3:
+                    op = {}  # the generator derives a name from method and path
                 params: list[dict] = []
                 taken = {norm_key(p) for p in pnames} | {"client", "url", "body"}
                 # path params: declared at op level in shuffled order unless hoisted to the path item
@@ -747,6 +751,15 @@ class DocGen:
                             cname = "P" + self.token()
                             comp_params[cname] = p
                             params[i] = {"$ref": f"#/components/parameters/{cname}"}
+                    if self.on("shared_components") and comp_params and r.random() < 0.5:
+                        # a component parameter SHARED with operations of other paths (non-path locations only)
+                        present = {(q.get("name", "").lower(), q.get("in")) for q in params if isinstance(q, dict) and "name" in q}
+                        present |= {(comp_params[q["$ref"].rsplit("/", 1)[1]]["name"].lower(), comp_params[q["$ref"].rsplit("/", 1)[1]]["in"]) for q in params if "$ref" in q}
+                        present_norm = {norm_key(n_) for n_, _l in present} | taken
+                        for cname, cp in list(comp_params.items()):
+                            if cp["in"] != "path" and norm_key(cp["name"]) not in present_norm and r.random() < 0.4:
+                                params.append({"$ref": f"#/components/parameters/{cname}"})
+                                present_norm.add(norm_key(cp["name"]))
                 r.shuffle(params)
                 if params:
                     op["parameters"] = params
@@ -765,8 +778,11 @@ class DocGen:
                     if st == 204:
                         resp.pop("content", None)
                     if self.on("component_responses") and r.random() < 0.25:
-                        cname = "R" + self.token()
-                        comp_responses[cname] = resp
+                        if self.on("shared_components") and comp_responses and r.random() < 0.4 and st != 204:
+                            cname = r.choice(sorted(comp_responses))  # the same component response as another operation
+                        else:
+                            cname = "R" + self.token()
+                            comp_responses[cname] = resp
                         resp = {"$ref": f"#/components/responses/{cname}"}
                     resps[str(st)] = resp
                 if self.on("noise_responses") and r.random() < 0.3:
